@@ -533,6 +533,10 @@ class Template(object):
 
         property_data_types = {}  # type: Dict[str, edxml.ontology.DataType]
 
+        # We will replace some object values below. Make sure that we do
+        # not change the properties of the event that is being evaluated.
+        event_object_values = dict(event_object_values)
+
         # Format object values based on their data type to make them
         # more human friendly.
         for property_name, values in event_object_values.items():
